@@ -10,8 +10,12 @@ Open Scope string_scope.
 
 (* a non-`use` statement is represented by the names it defines
    ("v:" value namespace: let / fn / unit incl. aliases, "t:" type namespace:
-   dimension / struct) *)
-Definition def := list string.
+   dimension / struct) and by the identifiers its text uses without binding them:
+   for each such identifier the list of names that would satisfy it (itself as a
+   value or type name, or the unit it is a prefixed spelling of) *)
+Definition def := (list string * list (list string))%type.
+Definition def_names (d : def) : list string := fst d.
+Definition def_free (d : def) : list (list string) := snd d.
 Definition mprog := list (stmt string def).
 Definition mtable := list (string * mprog).
 
@@ -43,7 +47,13 @@ Fixpoint import_each (t : mtable) (r : resolver string mprog) (ms : list string)
 Definition parse_item (s : string) : option (stmt string def) :=
   let (k, rest) := split_first ":"%char s in
   if String.eqb k "u" then Some (SUse rest)
-  else if String.eqb k "d" then Some (SOther (split ","%char rest))
+  else if String.eqb k "d" then
+    let (names, free) := split_first "~"%char rest in
+    Some (SOther (match names with EmptyString => [] | _ => split ","%char names end,
+                  match free with
+                  | EmptyString => []
+                  | _ => map (split "|"%char) (split ","%char free)
+                  end))
   else None.
 
 Fixpoint parse_items (l : list string) : mprog :=
@@ -73,7 +83,7 @@ Definition parse_graph (src : string) : mtable := parse_graph_lines (split nl sr
 Definition m_uses (p : mprog) : list string :=
   flat_map (fun s => match s with SUse m => [m] | SOther _ => [] end) p.
 Definition m_names (p : mprog) : list string :=
-  flat_map (fun s => match s with SUse _ => [] | SOther d => d end) p.
+  flat_map (fun s => match s with SUse _ => [] | SOther d => def_names d end) p.
 
 Definition is_some {X} (o : option X) : bool := match o with Some _ => true | None => false end.
 
@@ -98,6 +108,67 @@ Fixpoint dups (l : list string) : list string :=
   | [] => []
   | x :: r => if mem x r then x :: dups r else dups r
   end.
+
+(* ---- closedness: every identifier a definition uses is defined before it, by the module itself
+        or by a module that an earlier `use` of the module imports (transitively, computed with the
+        resolver model itself), or is built into the language ---- *)
+Definition builtin_names : list string := [].    (* keywords and built-in types are removed by the translator *)
+
+Definition names_of_modules (t : mtable) (ms : list string) : list string :=
+  flat_map (fun m => match assoc m t with Some p => m_names p | None => [] end) ms.
+
+Fixpoint skipn_str (n : nat) (l : list string) : list string :=
+  match n, l with
+  | O, _ => l
+  | Datatypes.S k, _ :: r => skipn_str k r
+  | Datatypes.S _, [] => []
+  end.
+
+Fixpoint closed_items (t : mtable) (avail : list string) (r : resolver string mprog) (items : mprog) : bool :=
+  match items with
+  | [] => true
+  | SUse m :: rest =>
+      match g_pass t r [SUse m] with
+      | (r1, ROk _) =>
+          let new := skipn_str (length (imported string mprog r)) (imported string mprog r1) in
+          closed_items t (avail ++ names_of_modules t new) r1 rest
+      | (_, _) => false
+      end
+  | SOther d :: rest =>
+      forallb (fun alts => existsb (fun a => mem a (def_names d ++ avail)) alts) (def_free d)
+      && closed_items t (avail ++ def_names d) r rest
+  end.
+
+(* the first module and identifier that break closedness (for the report) *)
+Definition closedb (t : mtable) : bool :=
+  forallb (fun e => closed_items t builtin_names (new_resolver string mprog) (snd e)) t.
+
+Fixpoint open_items (t : mtable) (avail : list string) (r : resolver string mprog) (items : mprog)
+  : list (list string) :=
+  match items with
+  | [] => []
+  | SUse m :: rest =>
+      match g_pass t r [SUse m] with
+      | (r1, ROk _) =>
+          let new := skipn_str (length (imported string mprog r)) (imported string mprog r1) in
+          open_items t (avail ++ names_of_modules t new) r1 rest
+      | (_, _) => [["use fails: " ++ m]]
+      end
+  | SOther d :: rest =>
+      filter (fun alts => negb (existsb (fun a => mem a (def_names d ++ avail)) alts)) (def_free d)
+      ++ open_items t (avail ++ def_names d) r rest
+  end.
+Definition open_names (t : mtable) : list (string * list (list string)) :=
+  filter (fun x => match snd x with [] => false | _ => true end)
+         (map (fun e => (fst e, open_items t builtin_names (new_resolver string mprog) (snd e))) t).
+
+(* the module graph has no cycle: no module is reachable from one of its own `use`s *)
+Definition acyclicb (t : mtable) : bool :=
+  forallb (fun e =>
+             match import_each t (new_resolver string mprog) (m_uses (snd e)) with
+             | (r, true) => negb (mem (fst e) (imported string mprog r))
+             | (_, false) => false
+             end) t.
 
 (* ---- printing for the correspondence check ---- *)
 Definition show_imports (t : mtable) (mods_csv : string) : string :=
